@@ -370,7 +370,7 @@ func (in *instr) stmt(s ast.Stmt, label *ast.Ident) ast.Stmt {
 		case *ast.SelectStmt:
 			return in.stmt(s.Stmt, s.Label)
 		case *ast.RangeStmt:
-			if in.isChanRange(s.Stmt.(*ast.RangeStmt)) {
+			if in.isChanRange(s.Stmt.(*ast.RangeStmt)) || in.isSortableMapRange(s.Stmt.(*ast.RangeStmt)) {
 				return in.stmt(s.Stmt, s.Label)
 			}
 		}
@@ -391,6 +391,9 @@ func (in *instr) stmt(s ast.Stmt, label *ast.Ident) ast.Stmt {
 	case *ast.RangeStmt:
 		if in.isChanRange(s) {
 			return in.rangeChan(s, label)
+		}
+		if in.isSortableMapRange(s) {
+			return in.rangeMap(s, label)
 		}
 		s.X = in.fixExpr(s.X)
 		in.block(s.Body)
@@ -435,6 +438,57 @@ func (in *instr) isChanRange(s *ast.RangeStmt) bool {
 	}
 	_, isChan := tv.Type.Underlying().(*types.Chan)
 	return isChan
+}
+
+// isSortableMapRange: `for k, v := range m` over a map whose keys are strings or integers. Go leaves the
+// iteration order unspecified; during a simulated run the keys are visited in sorted order so that one seed
+// is one execution (entries deleted during the loop are skipped, as Go does).
+func (in *instr) isSortableMapRange(s *ast.RangeStmt) bool {
+	if s.Tok != token.DEFINE && (s.Key != nil || s.Value != nil) {
+		return false
+	}
+	tv, ok := in.info.Types[s.X]
+	if !ok || tv.Type == nil {
+		return false
+	}
+	m, isMap := tv.Type.Underlying().(*types.Map)
+	if !isMap {
+		return false
+	}
+	b, isBasic := m.Key().Underlying().(*types.Basic)
+	if !isBasic {
+		return false
+	}
+	return b.Info()&(types.IsString|types.IsInteger) != 0
+}
+
+func (in *instr) rangeMap(s *ast.RangeStmt, label *ast.Ident) ast.Stmt {
+	n := in.next()
+	mv := id("_zm" + n)
+	kv := id("_zk" + n)
+	x := in.fixExpr(s.X)
+	in.block(s.Body)
+	in.sites++
+	var body []ast.Stmt
+	valName := ast.Expr(id("_"))
+	if vi, ok := s.Value.(*ast.Ident); ok && vi.Name != "_" {
+		valName = vi
+	}
+	okv := id("_zo" + n)
+	body = append(body, define([]ast.Expr{valName, okv}, &ast.IndexExpr{X: mv, Index: kv}))
+	body = append(body, &ast.IfStmt{Cond: &ast.UnaryExpr{Op: token.NOT, X: okv}, Body: &ast.BlockStmt{List: []ast.Stmt{&ast.BranchStmt{Tok: token.CONTINUE}}}})
+	if vi, ok := valName.(*ast.Ident); ok && vi.Name != "_" {
+		body = append(body, assign(blank(1), id(vi.Name)))
+	}
+	if ki, ok := s.Key.(*ast.Ident); ok && ki.Name != "_" {
+		body = append(body, define([]ast.Expr{ki}, kv), assign(blank(1), id(ki.Name)))
+	}
+	body = append(body, s.Body.List...)
+	var loop ast.Stmt = &ast.RangeStmt{Key: id("_"), Value: kv, Tok: token.DEFINE, X: in.zcall("SortedKeys", mv), Body: &ast.BlockStmt{List: body}}
+	if label != nil {
+		loop = &ast.LabeledStmt{Label: label, Stmt: loop}
+	}
+	return &ast.BlockStmt{List: []ast.Stmt{define([]ast.Expr{mv}, x), loop}}
 }
 
 func (in *instr) rangeChan(s *ast.RangeStmt, label *ast.Ident) ast.Stmt {
